@@ -219,6 +219,18 @@ func runCoCase(c coCase, st *coStats) *fail {
 				if f := expect(tRead(40, 0, uint64(len(val))), refcodec.New(refcodec.Rread, 0, "data", val)); f != nil {
 					return f
 				}
+				// the value can be read again, as a whole and in windows: every reply is the bytes the backend produced
+				want := coBytes(stp.N, stp.Salt)
+				tag++
+				if f := expect(tRead(40, 0, uint64(len(want))), refcodec.New(refcodec.Rread, 0, "data", want)); f != nil {
+					return f
+				}
+				if a, b := len(want)/3, len(want)-len(want)/4; b > a {
+					tag++
+					if f := expect(tRead(40, uint64(a), uint64(b-a)), refcodec.New(refcodec.Rread, 0, "data", want[a:b])); f != nil {
+						return f
+					}
+				}
 			}
 			tag++
 			if f := expect(tClunk(40), refcodec.New(refcodec.Rclunk, 0)); f != nil {
